@@ -1581,10 +1581,15 @@ func (db *DatabaseCollectionWithUser) PutExistingCurrentVersion(ctx context.Cont
 				}
 			}
 			if opts.ISGRWrite {
+				currentRevBeforeAlign := doc.GetRevTreeID()
 				err := doc.alignRevTreeHistoryForHLVWrite(ctx, db, opts.NewDoc, opts.RevTreeHistory, opts.ForceAllowConflictingTombstone)
 				if err != nil {
 					return nil, nil, false, nil, err
 				}
+				// aligning moves the document's current rev to the incoming revision, but the update that follows has to
+				// find the previous current rev there: it only moves the document's channels and grants to the new
+				// revision when it sees the current rev change
+				doc.SetRevTreeID(currentRevBeforeAlign)
 			}
 		} else {
 			conflictStatus := doc.IsInConflict(ctx, db, opts.NewDocHLV, opts, revTreeConflictChecked, revTreeConflictCheckStatus)
@@ -1608,10 +1613,13 @@ func (db *DatabaseCollectionWithUser) PutExistingCurrentVersion(ctx context.Cont
 					newGeneration = prevGeneration + 1
 				} else {
 					// align rev tree here for ISGR replications
+					currentRevBeforeAlign := doc.GetRevTreeID()
 					alignErr := doc.alignRevTreeHistoryForHLVWrite(ctx, db, opts.NewDoc, opts.RevTreeHistory, false)
 					if alignErr != nil {
 						return nil, nil, false, nil, alignErr
 					}
+					// (see above: the update that follows has to see the current rev change)
+					doc.SetRevTreeID(currentRevBeforeAlign)
 				}
 			case HLVConflict:
 				// if we have been supplied a rev tree from cbl, perform conflict check on rev tree history
